@@ -738,11 +738,17 @@ class Stats:
 
 
 def bfs(cfg, alphabet, depth, oracles, hooks=None, executor=None, max_transitions=None, merge=True,
-        stop_on_violation_per_kind=25):
+        stop_on_violation_per_kind=25, part2=None):
     """Explore all histories over `alphabet(ref)` up to `depth` events, merging equal states.
 
     `executor(cfg, history)` -> Result-like dict is how a history is run (in an isolated child
     by default: see isolate.py); here it defaults to in-process execution.
+
+    `part2=(i, n)`: two-level partition of one BFS over n tasks.  Every task executes the (few)
+    histories of length 1 - the search is deterministic, so all tasks see the same merged
+    level-1 frontier - and numbers the histories of length 2 in BFS order; task i explores only
+    those numbered i mod n (and everything below them).  Level-1 transitions are counted and
+    reported by task 0 only, so the union of the tasks is exactly one BFS.
     """
     st = Stats()
     if executor is None:
@@ -755,6 +761,7 @@ def bfs(cfg, alphabet, depth, oracles, hooks=None, executor=None, max_transition
     st.states = 1
     frontier = collections.deque([((), root["enabled"])])
     per_kind = collections.Counter()
+    n_level2 = 0
     while frontier:
         hist, enabled = frontier.popleft()
         for ev in enabled:
@@ -762,6 +769,20 @@ def bfs(cfg, alphabet, depth, oracles, hooks=None, executor=None, max_transition
                 st.capped = True
                 return st
             h2 = hist + (ev,)
+            if part2 is not None and len(h2) <= 2:
+                if len(h2) == 2:
+                    n_level2 += 1
+                    if (n_level2 - 1) % part2[1] != part2[0]:
+                        continue
+                elif part2[0] != 0:
+                    # shared level: executed to learn the frontier, counted and judged by task 0
+                    r = executor(cfg, h2)
+                    if r["violations"] or r["digest"] in seen:
+                        continue
+                    seen.add(r["digest"])
+                    if len(h2) < depth:
+                        frontier.append((h2, r["enabled"]))
+                    continue
             r = executor(cfg, h2)
             st.transitions += 1
             st.by_kind[ev[0] if ev[0] != "op" else "op:" + ev[2]] += 1
